@@ -152,7 +152,7 @@ def check_model_pair(mp: onnx.ModelProto, spec, tname, tf, stats, loop_bound=3, 
                 pass
             return None, None
         v = Q.compare(r1, r2, inputs, stats, tol_fn=tol_fn, skip_if_first_fails=skip_if_first_fails)
-        rec.update(verdict=v["verdict"], detail=v.get("detail", ""), kind=v.get("kind"), grid=v.get("grid"))
+        rec.update(verdict=v["verdict"], detail=v.get("detail", ""), kind=v.get("kind"), grid=v.get("grid"), spec_orig_fails=v.get("first_fails"))
         rec["uf"] = sorted(set().union(*[r["uf"] for r in r1 + r2]))
         rec["numeric_nodes"] = sum(r.get("numeric_nodes", 0) for r in r1 + r2)
         if v["verdict"] == "cex":
@@ -200,7 +200,38 @@ def model_worker(payload):
     return out
 
 
+def topo_shuffle(mp: onnx.ModelProto, rnd) -> onnx.ModelProto:
+    """the same model with its main-graph nodes in another valid topological order (random choice among ready nodes):
+    node order is free in ONNX, and transformations that insert nodes at a matched node's position depend on it"""
+    m = onnx.ModelProto()
+    m.CopyFrom(mp)
+    nodes = list(m.graph.node)
+
+    def free_inputs(n):
+        ins = set(i for i in n.input if i)
+        for a in n.attribute:
+            if a.type == onnx.AttributeProto.GRAPH:
+                inner = {o for sn in a.g.node for o in sn.output} | {i.name for i in a.g.input} | {t.name for t in a.g.initializer}
+                for sn in a.g.node:
+                    ins |= set(i for i in free_inputs(sn) if i not in inner)
+        return ins
+    produced_by = {o: k for k, n in enumerate(nodes) for o in n.output if o}
+    deps = [{produced_by[i] for i in free_inputs(n) if i in produced_by} for n in nodes]
+    done, order = set(), []
+    while len(order) < len(nodes):
+        ready = [k for k in range(len(nodes)) if k not in done and deps[k] <= done]
+        if not ready:
+            return mp
+        k = rnd.choice(ready)
+        done.add(k)
+        order.append(k)
+    del m.graph.node[:]
+    m.graph.node.extend(nodes[k] for k in order)
+    return m
+
+
 def corpus(tier: str, seed: int):
+    import random
     from vp.gen import models as GM
     n = 300 if tier == "quick" else 3000
     items = []
@@ -209,6 +240,9 @@ def corpus(tier: str, seed: int):
             m, spec, feats = GM.random_model(seed, i)
         except Exception:  # noqa: BLE001 - generator dead end
             continue
+        if i % 3 == 2:
+            m = topo_shuffle(m, random.Random(seed * 31 + i))
+            feats = sorted(set(feats) | {"node_order_shuffled"})
         items.append((m.SerializeToString(), [(a, int(b), tuple(c)) for a, b, c in spec], f"gen{i}", feats))
     return items
 
@@ -252,18 +286,29 @@ def diag_eps_identity(orig, new):
     to it was removed"""
     consts = _const_arrays(orig)
     ginputs = {i.name for i in orig.graph.input}
+    folded = None
+    try:
+        # the near-identity constant may be a computed one (e.g. Sqrt(Abs(2 - 0.999999))): look at the folded model too
+        from onnxscript import optimizer
+        folded = onnx.ModelProto()
+        folded.CopyFrom(orig)
+        optimizer.fold_constants(folded)
+        consts_f = _const_arrays(folded)
+    except Exception:  # noqa: BLE001
+        folded, consts_f = None, {}
 
     def near(n):
         if n.op_type not in ("Add", "Sub", "Mul", "Div"):
             return False
         target = 0.0 if n.op_type in ("Add", "Sub") else 1.0
         for i in n.input:
-            if i in consts and i not in ginputs and consts[i].dtype.kind == "f" and consts[i].size == 1:
-                v = float(consts[i].reshape(-1)[0])
-                if v != target and abs(v - target) <= max(1e-5 * max(abs(v), abs(target)), 1e-8):
-                    return True
+            for cs in (consts, consts_f):
+                if i in cs and i not in ginputs and cs[i].dtype.kind == "f" and cs[i].size == 1:
+                    v = float(cs[i].reshape(-1)[0])
+                    if v != target and abs(v - target) <= max(1e-5 * max(abs(v), abs(target)), 1e-8):
+                        return True
         return False
-    return _count_nodes(orig, near) > 0 and _count_nodes(new, lambda n: n.op_type in ("Add", "Sub", "Mul", "Div")) < _count_nodes(orig, lambda n: n.op_type in ("Add", "Sub", "Mul", "Div"))
+    return (_count_nodes(orig, near) > 0 or (folded is not None and _count_nodes(folded, near) > 0)) and _count_nodes(new, lambda n: n.op_type in ("Add", "Sub", "Mul", "Div")) < _count_nodes(orig, lambda n: n.op_type in ("Add", "Sub", "Mul", "Div"))
 
 
 def diag_minmax_initializer_input(orig, new):
